@@ -16,6 +16,9 @@ use crate::docrun::catch;
 struct Tree {
     k: String,
     c: Vec<Tree>,
+    #[allow(dead_code)]
+    #[serde(default)]
+    md: Option<String>,
 }
 
 #[derive(Deserialize)]
@@ -183,7 +186,8 @@ pub fn cmd_replay(args: &[String]) -> i32 {
         for (si, op) in h.ops.iter().enumerate() {
             let k = op["k"].as_i64().unwrap();
             let tree: Tree = serde_json::from_value(op["tree"].clone()).expect("tree");
-            let md = render_tree(&tree);
+            // a shape that only one particular source text produces carries that text itself
+            let md = op["tree"]["md"].as_str().map(|s| s.to_string()).unwrap_or_else(|| render_tree(&tree));
             let key = Key::from_file_name(&format!("n{}", k));
             let r = catch(std::panic::AssertUnwindSafe(|| {
                 g.update_key(key.clone(), &md);
